@@ -87,8 +87,8 @@ Record est := mkEst {
   e_rv : rvars;
   e_clock : N;                    (* logical clock of time.Now() readings *)
   e_ctr : N;                      (* run counter in the configuration backend *)
-  e_stale : list (list N) }.      (* hook-task collector goroutines left behind by a failed
-                                     trigger command: each still receives from incomingEvents *)
+  e_stale : list (list N) }.      (* always []: hook-task collector goroutines left behind by a
+                                     failed trigger command (none since the repair of C09-d) *)
 
 Definition est0 (s : st) : est := mkEst s [] rv0 1 0 [].
 
